@@ -109,6 +109,35 @@ def run(ctx):
             slp = norm(unparse(sleeps[0].value.args[0])) if sleeps else ""
             ctx.ob("C17.count", tr.short(), "wait-interval", slp == f"{req}.denm_interval/1000", f"wait = `{slp}` s (interval in ms / 1000)", loc)
             ok_form = True
+    if isinstance(lp, ast.For) and isinstance(lp.iter, ast.Call) and dotted(lp.iter.func) == "range" and len(lp.iter.args) == 1:
+        # `for _ in range(N)`: N must be ceil(T / i)
+        loc = f"{tr.module.rel}:{lp.lineno}"
+        N = lp.iter.args[0]
+        if isinstance(N, ast.Name):
+            ds = [n for n in tr.node.body if isinstance(n, ast.Assign) and dotted(n.targets[0]) == N.id and n.lineno < lp.lineno]
+            N = ds[-1].value if ds else N
+        T_, I_ = f"{req}.time_period", f"{req}.denm_interval"
+        nt = norm(unparse(N))
+        ceil_forms = {f"math.ceil({T_}/{I_})", f"ceil({T_}/{I_})", f"-(-{T_}//{I_})", f"({T_}+{I_}-1)//{I_}", f"({T_}+({I_}-1))//{I_}",
+                      f"int(math.ceil({T_}/{I_}))", f"-(-{T_}//{I_})"}
+        ctx.ob("C17.count", tr.short(), "bound", nt in ceil_forms,
+               f"the loop runs range({nt}) times" + (" = ceil(T / i)" if nt in ceil_forms else
+                                                    ": not ceil(T / i) - a duration that is not a multiple of the interval loses its last DENM (T < i sends none)"), loc)
+        txs = [n for n in lp.body if isinstance(n, ast.Expr) and isinstance(n.value, ast.Call) and isinstance(n.value.func, ast.Attribute)
+               and n.value.func.attr == "transmit_denm"]
+        nested_tx = [n for n in ast.walk(lp) if isinstance(n, ast.Call) and isinstance(n.func, ast.Attribute) and n.func.attr == "transmit_denm"]
+        sleeps = [n for n in lp.body if isinstance(n, ast.Expr) and isinstance(n.value, ast.Call) and (dotted(n.value.func) or "").endswith("sleep")]
+        exits = [n for n in ast.walk(lp) if isinstance(n, (ast.Break, ast.Continue, ast.Return))]
+        ctx.ob("C17.count", tr.short(), "counter", isinstance(lp.target, ast.Name) and not any(isinstance(n, ast.Name) and n.id == lp.target.id and isinstance(n.ctx, ast.Store)
+                                                                                                  for b in lp.body for n in ast.walk(b)),
+               "the loop variable is not modified in the body", loc)
+        ctx.ob("C17.count", tr.short(), "one-send-per-iteration", len(txs) == 1 and len(nested_tx) == 1 and not exits,
+               "exactly one unconditional transmission per repetition, no early exit", loc)
+        first = bool(txs) and bool(sleeps) and lp.body.index(txs[0]) < lp.body.index(sleeps[0])
+        ctx.ob("C17.count", tr.short(), "send-before-wait", first, "the DENM is handed down before the wait (first one at once)", loc)
+        slp = norm(unparse(sleeps[0].value.args[0])) if sleeps else ""
+        ctx.ob("C17.count", tr.short(), "wait-interval", slp == f"{req}.denm_interval/1000", f"wait = `{slp}` s (interval in ms / 1000)", loc)
+        ok_form = True
     if not ok_form:
         raise AnalysisError("C17: repetition loop is not of the recognised counting form")
     # the message sent in each repetition is built from the request and the vehicle data
